@@ -47,6 +47,42 @@ LEVEL.update({
             "4 C16", "bounded-exhaustive exploration; JSON parse + strict structural comparison"),
 })
 
+LEVEL.update({
+    "C08": ("A skeleton schema (nesting depth 3, enums, aliases, constants, imports) x one snippet from a catalogue of ~150 constraint violations and "
+            "boundary-valid constructs (both sides of every numeric limit) x every slot of the snippet's scope kind x line shifts, parsed by the real "
+            "compiler; per family real CLI subprocesses.  Verdict, error class, file and line are checked.", "4 C08",
+            "exhaustive enumeration of (catalogue entry x position x shift) on the real parser/CLI"),
+    "C09": ("All single-token edits of seeds covering every grammar production (delete/replace by each vocabulary item/insert/swap), all truncations and "
+            "byte deletions, all <=k-token fragments in 9 grammar contexts, import environment answers; every accepted input rendered by every renderer; "
+            "oracle: result type and a watchdog.", "4 C09", "exhaustive bounded mutation/fragment enumeration on the real parser and renderers"),
+    "C10": ("Base schema x all combinations of <=k of ~38 non-default features x {c, c -O, c -O -F, py, go, go -O}; oracles are the toolchains (gcc, g++, "
+            "C/C++ layout probe, CPython import+instantiate) and static Go rules of bpmc/gofront.", "4 C10",
+            "exhaustive feature-combination enumeration; toolchains as oracle"),
+    "C11": ("Scope skeleton file>A>B>C + imported files: all 3^4 declaration-site combinations x use scopes for a simple name, dotted paths, an import "
+            "name shadowed by a nested message, constants; each declaration has a distinct width; oracle: independent resolver.", "4 C11",
+            "exhaustive enumeration of shadowing patterns vs an independent resolver"),
+    "C13": ("All constant expressions with <=k operators over a literal alphabet (every operator choice and parenthesisation, references to earlier and "
+            "imported constants), all strings of length <=n over the lexer alphabet, booleans; values read back from the parsed schema and from the "
+            "emitted C (compiled), Python (imported) and Go (lexed) literals.", "4 C13",
+            "exhaustive bounded enumeration of expressions/strings vs an independent evaluator"),
+    "C15": ("4 skeletons x all permutations of the style-guide words over the message roles x c.name_prefix in {none, my_prefix_, ab_} x {c, c -O, py, go, "
+            "go -O}; names observed from generated text, nm, the imported module, gofront; oracle: independent implementation of the documented scheme; "
+            "prefix-erasure diff.", "4 C15", "exhaustive enumeration of a style-guide-named schema space vs an independent naming model"),
+    "C17": ("One schema family x extensible marker at 7 positions x {c, go, py} x -O on/off x -F over all subsets of message names (+unknown) x --endian x "
+            "-q: refusal table and textual identity of the selected functions / remaining declarations with the unfiltered output; subprocess classes.",
+            "4 C17", "exhaustive enumeration of CLI configurations"),
+    "C18": ("Every sequence of length <=k over a 12-event alphabet of compile/parse/lint operations executed in ONE process (fork() snapshots the process "
+            "state after each prefix, so all 12+144+1728 histories are real executions), outputs compared with fresh-process goldens; plus a "
+            "fresh-process matrix over PYTHONHASHSEED x cwd x path form x outdir x -q.", "4 C18",
+            "exhaustive exploration of in-process operation histories (fork-snapshot DFS) vs fresh-process goldens"),
+    "C19": ("Single-file states of SING u COMB u TREE: generated Go standard-mode text parsed by bpmc/gofront and compared structurally with the "
+            "reference layout and with the generated Python's processor tree; accessor case tables; Go runtime helpers interpreted on their whole "
+            "domain vs lib/py.", "4 C19", "bounded-exhaustive structural comparison; whole-domain evaluation of helper functions"),
+    "C20": ("Style-guide roots x print styles (line shifts, CRLF, indentation) x comment lines x every single name perturbation; every C08 violation at "
+            "line shifts; oracle: the printer's source map for lines/columns, expected warning classes, -c exit status.", "4 C20",
+            "exhaustive enumeration of style/perturbation variants vs the printer's source map"),
+})
+
 NOT_YET = {}
 
 
